@@ -91,7 +91,8 @@ def validate(ctx, traces, tag):
             cells = e.get("beta") if ".beta." in v["clause"] else e.get("mu") if ".mu." in v["clause"] else e.get("result")
             x = mnutil.raw_of(cells, v["a"]) if cells else (float(e["x"]) if "x" in e else None)
             if x is not None and abs(x - v["want"][0] / v["want"][1]) <= 1e-9 * max(1.0, abs(x)):
-                raise Machinery(f"rationalisation artefact in trace {tid}: {x} vs {v['want']}")
+                ctx.artefact(f"trace {tid}: {x} vs {v['want']}")
+                continue
         feats = {"model": t["inst"]["kind"], "dup_factors": _has_dups(t["inst"])}
         if e["ev"] == "triangulate":
             feats["heuristic"] = e.get("heuristic")
